@@ -94,14 +94,22 @@ def Index.card : Index → Card
 
 /-! ## writer side: rows → (index, values) -/
 
-/-- rows that hold at least one value -/
-def nonNullRows {V : Type} (rows : Column V) : List Nat :=
-  (List.range rows.length).filter (fun d => !(rows.getD d []).isEmpty)
+/-- rows that hold at least one value, numbered from `i` -/
+def nonNullFrom {V : Type} : Nat → Column V → List Nat
+  | _, [] => []
+  | i, r :: rs => if r.isEmpty then nonNullFrom (i + 1) rs else i :: nonNullFrom (i + 1) rs
+
+/-- rows that hold at least one value (the `doc_ids_with_values` of the index builders) -/
+def nonNullRows {V : Type} (rows : Column V) : List Nat := nonNullFrom 0 rows
+
+/-- `acc :: acc + n₀ :: acc + n₀ + n₁ :: …` -/
+def prefixSums : List Nat → Nat → List Nat
+  | [], acc => [acc]
+  | n :: ns, acc => acc :: prefixSums ns (acc + n)
 
 /-- mirrors: shuffled.rs::integrate_num_vals / value_index.rs::MultivaluedIndexBuilder —
 `0 ::` running sums of the non-zero row lengths -/
-def startOffsets (lens : List Nat) : List Nat :=
-  ((lens.filter (· ≠ 0)).foldl (fun (acc : List Nat × Nat) n => (acc.1 ++ [acc.2 + n], acc.2 + n)) ([0], 0)).1
+def startOffsets (lens : List Nat) : List Nat := prefixSums (lens.filter (· ≠ 0)) 0
 
 /-- the index + flat values written for `rows` under cardinality `card`
 (mirrors: writer/mod.rs::send_to_serialize_column_mappable_to_u64 and the index builders) -/
@@ -213,6 +221,6 @@ def mergeStacked {V : Type} (ins : List (MergeInput V)) : Index × List V :=
   | .optional => (.optional (stackedNonNull ins) total, vals)
   | .multivalued =>
     (.multivalued (stackedNonNull ins) total
-      ((stackedNumVals ins).foldl (fun (acc : List Nat × Nat) n => (acc.1 ++ [acc.2 + n], acc.2 + n)) ([0], 0)).1, vals)
+      (prefixSums (stackedNumVals ins) 0), vals)
 
 end TantivyModel.Columnar
